@@ -73,6 +73,26 @@ func (x *Exec) initialConfig() *Config {
 	return cfg
 }
 
+type ssaParamLike struct {
+	name string
+	typ  types.Type
+	val  ssa.Value
+	free bool
+}
+
+func paramLikes(fn *ssa.Function) []*ssaParamLike {
+	var out []*ssaParamLike
+	for _, p := range fn.Params {
+		out = append(out, &ssaParamLike{p.Name(), p.Type(), p, false})
+	}
+	for _, fv := range fn.FreeVars {
+		if el := derefType(fv.Type()); el != nil {
+			out = append(out, &ssaParamLike{fv.Name(), el, fv, true})
+		}
+	}
+	return out
+}
+
 // Verify runs the symbolic execution of the function against its contract and
 // collects obligations.
 func (x *Exec) Verify() {
@@ -118,6 +138,10 @@ func (x *Exec) Verify() {
 	if x.abstract {
 		return
 	}
+	func() {
+		defer x.catch("held-lock seeding")
+		x.seedHeldLocks(cfg)
+	}()
 	cfg.old = cfg.st.clone()
 	// vacuity canary: the precondition must be satisfiable
 	x.canary(cfg, "pre-satisfiable", token.NoPos)
@@ -447,8 +471,9 @@ func (x *Exec) step(cfg *Config, f *Frame, in ssa.Instruction) (forks []*Config,
 	case *ssa.BinOp:
 		f.regs[i] = x.binop(cfg, i, x.get(f, i.X), x.get(f, i.Y))
 	case *ssa.Store:
-		x.guardedAccess(cfg, f, i.Addr, true, i.Pos())
-		x.store(cfg, x.get(f, i.Addr), x.get(f, i.Val), i.Val.Type())
+		av := x.get(f, i.Addr)
+		x.guardedAccess(cfg, av, true, x.nameOf(i.Addr), i.Pos())
+		x.store(cfg, av, x.get(f, i.Val), i.Val.Type())
 	case *ssa.Phi:
 		var chosen Val
 		for k, p := range f.block.Preds {
@@ -600,13 +625,13 @@ func (x *Exec) fieldAddr(st *State, styp types.Type, idx int, base Term) Val {
 	if isStructType(ft) {
 		sub := x.subRef(styp, idx, base)
 		st.nonnil[sub.S] = true
-		return TV{T: sub}
+		return TV{T: sub, Org: &origin{styp, idx, base}}
 	}
 	if _, isArr := ft.Underlying().(*types.Array); isArr {
 		unsupported("array field")
 	}
 	name, _ := x.fieldArrName(styp, idx)
-	return AddrV{Kind: aField, Arr: name, Base: base, Elem: ft}
+	return AddrV{Kind: aField, Arr: name, Base: base, Elem: ft, STyp: styp, FIdx: idx}
 }
 
 func (x *Exec) addrOfPtr(v Val, elem types.Type) AddrV {
@@ -653,7 +678,20 @@ func (x *Exec) load(cfg *Config, ptr Val, elem types.Type, pos token.Pos) Val {
 		t = Select(arr, a.Base)
 	}
 	x.assumeLoaded(st, t, elem)
-	return x.wrapLoaded(t, elem)
+	w := x.wrapLoaded(t, elem)
+	if tv, ok := w.(TV); ok {
+		if a.Kind == aField {
+			tv.Org = &origin{a.STyp, a.FIdx, a.Base}
+			if st.orgs == nil {
+				st.orgs = map[string]*origin{}
+			}
+			st.orgs[tv.T.S] = tv.Org
+		} else if o, known := st.orgs[tv.T.S]; known {
+			tv.Org = o
+		}
+		return tv
+	}
+	return w
 }
 
 func (x *Exec) wrapLoaded(t Term, elem types.Type) Val {
@@ -758,8 +796,9 @@ func (x *Exec) store(cfg *Config, ptr Val, v Val, vt types.Type) {
 func (x *Exec) unop(cfg *Config, f *Frame, i *ssa.UnOp) Val {
 	switch i.Op {
 	case token.MUL:
-		x.guardedAccess(cfg, f, i.X, false, i.Pos())
-		return x.load(cfg, x.get(f, i.X), i.Type(), i.Pos())
+		pv := x.get(f, i.X)
+		x.guardedAccess(cfg, pv, false, x.nameOf(i.X), i.Pos())
+		return x.load(cfg, pv, i.Type(), i.Pos())
 	case token.NOT:
 		return TV{T: Not(x.tv(x.get(f, i.X)))}
 	case token.SUB:
@@ -1044,7 +1083,7 @@ func (x *Exec) makeInterface(st *State, v Val, from types.Type) Val {
 		if _, isPtr := from.Underlying().(*types.Pointer); isPtr {
 			// identity boxing for pointers; typed-nil interfaces are not modelled
 			st.assume(Or(Eq(vv.T, IntLit(0)), Eq(x.dynTypeFn()(vv.T), x.typeTag(from))))
-			return TV{T: vv.T, Dyn: from}
+			return TV{T: vv.T, Dyn: from, Org: vv.Org}
 		}
 		if x.sortOf(from) == SInt {
 			if _, isBasic := from.Underlying().(*types.Basic); !isBasic {
@@ -1151,7 +1190,7 @@ func (x *Exec) unboxAs(v TV, to types.Type) Val {
 		if el := derefType(to); !isStructType(el) {
 			return AddrV{Kind: aCell, Arr: x.cellArr(el), Base: v.T, Elem: el}
 		}
-		return TV{T: v.T}
+		return TV{T: v.T, Org: v.Org}
 	}
 	if isStructType(to) {
 		unsupported("type assertion to struct value")
